@@ -20,6 +20,7 @@ func init() {
 			r.Rule("C25.dispatch", "busy test and insert in one critical section; insert ⇐ absent; busy ⇒ errWalletBusy; goroutine after insert", 5)
 			r.Rule("C25.release", "deferred delete of the same key registered before execute", 3)
 			r.Rule("C25.only-door", "walletAction.execute called only from the dispatcher goroutine", 1)
+			r.Rule("C25.nonblocking", "nothing can block while actionsMutex is held, nor in the action goroutine around execute (wallets do not wait for each other; a wallet is free as soon as its action ends)", 3)
 			r.FieldUnderLock("C25.lock", "pkg/tbtc", "walletDispatcher", "actions", "actionsMutex", nil)
 			fn := r.MustFn("C25.dispatch", "pkg/tbtc", "walletDispatcher.dispatch")
 			if fn == nil {
@@ -70,6 +71,21 @@ func init() {
 			if gf == nil {
 				r.Undecided("C25.release", FnName(fn)+"#go", "goroutine body not resolved")
 				return
+			}
+			noBlock := func(f *ssa.Function, lock, what string) {
+				bl := blockingUnder(f, lock, map[string]bool{"execute": lock != ""}, `\.actionsMutex$`)
+				if len(bl) == 0 {
+					r.Ok("C25.nonblocking", FnName(f)+"#"+what, f.Pos(), "no channel operation, wait, sleep or foreign lock "+what)
+					return
+				}
+				for _, in := range bl {
+					r.Fail("C25.nonblocking", FnName(f)+"#"+what, in.Pos(), "operation that can block "+what+": another wallet's dispatch (or this wallet's release) waits behind it", nil, []string{in.String()})
+				}
+			}
+			noBlock(fn, "P0.actionsMutex", "while actionsMutex is held")
+			noBlock(gf, "", "in the action goroutine")
+			for _, a := range gf.AnonFuncs {
+				noBlock(a, "", "in the goroutine's deferred release")
 			}
 			execs := Sites(gf, `^invoke:pkg/tbtc\.walletAction\.execute$`, false)
 			var defers []*ssa.Defer
